@@ -8,7 +8,7 @@
    symmetric operators, ==/!= and </>= duality, representability monotonicity, var/assign/argument coherence). *)
 EXTENDS Types, TypesCfg, TLC, Json, SequencesExt
 CONSTANT NoPreEval      \* unused; declaring a CONSTANT stops TLC from pre-evaluating this module's (large) definitions at start-up
-\* Tier (1 quick, 2 thorough), Part, Parts come from TypesCfg: this TLC process handles the programs with index % Parts = Part
+\* Tier (1 quick, 2 thorough) comes from TypesCfg
 
 (* ---------------------------------------------------------------- AST constructors *)
 Id(n) == [k |-> "id", name |-> n]
@@ -227,9 +227,8 @@ CtxBody(name, E) ==
 
 ExprCases(names, E) == Pairs(names, E, LAMBDA c, e : Prog("exprctx", c, <<e[2], e[3], e[4], e[5]>>, CtxRes(c), CtxBody(c, e[1])))
 
-KeyCtx == <<"var:int8", "var:float64", "var:any", "asg:N", "if", "arg:f1", "index:sl", "stmt">>
-QuickCtx == <<"varinfer", "var:int8", "var:float64", "var:any", "var:NS", "asg:string", "asg:error", "if", "ret:int", "ret2",
-   "arg:fvspread", "index:sl", "shcount", "shleftf", "swcase", "send", "eqnil", "incdec", "lhs", "stmt", "assert", "addr", "const:int8", "conv:string">>
+KeyCtx == <<"var:int8", "var:float64", "var:any", "asg:N", "if", "index:sl">>
+QuickCtx == <<"varinfer", "var:int", "var:int8", "var:uint8", "var:float64", "var:any", "asg:error", "if", "ret2", "index:sl", "shcount", "shleftf", "lhs", "stmt">>
 ExprProgs == IF Tier = 1 THEN ExprCases(<<"blank">>, EMid) \o ExprCases(QuickCtx, ETiny)
              ELSE ExprCases(<<"blank">>, EAll) \o ExprCases(KeyCtx, EMid) \o ExprCases(CtxNames, ESmall)
 
@@ -279,7 +278,7 @@ DeclAlphabet == <<
    IfInit(Define(<<"a">>, <<LitI(1)>>), Id("vb"), <<Use("a")>>), Define(<<"_", "a">>, <<LitI(1), LitI(2)>>), Define(<<"_">>, <<LitI(1)>>),
    Define(<<"a", "_">>, <<Call(Id("f2"), <<>>)>>), OpAssign("+", Id("a"), LitI(1)), Define(<<"a">>, <<Id("nil")>>),
    Define(<<"vi", "a">>, <<LitI(1), LitI(2)>>), Define(<<"vi">>, <<LitI(1)>>) >>
-DeclSeqs == LET A == DeclAlphabet IN
+DeclSeqs == LET A == IF Tier = 1 THEN SubSeq(DeclAlphabet, 1, 15) ELSE DeclAlphabet IN
    Map1(A, LAMBDA s : <<s>>) \o Pairs(A, A, LAMBDA s, t : <<s, t>>)
    \o (IF Tier = 1 THEN <<>> ELSE LET B == SubSeq(A, 1, 13) IN Flat(Map1(B, LAMBDA s : Pairs(B, B, LAMBDA t, u : <<s, t, u>>))))
 DeclProgs == Map1(DeclSeqs, LAMBDA b : Prog("decl", "", NoDesc, <<>>, b))
@@ -316,7 +315,8 @@ TopProgs == Pairs(TopSets, TopBodies, LAMBDA t, b : [Prog("top", "", NoDesc, <<>
 
 (* ---------------------------------------------------------------- B4: clause scoping in select / switch / type switch *)
 SelAlphabet == <<
-   CRecvDef(<<"x">>, Id("vch"), <<Use("x")>>), CRecvDef(<<"x">>, Id("vch"), <<>>), CRecvDef(<<"x", "ok">>, Id("vch"), <<Use("x"), Use("ok")>>),
+   CRecvDef(<<"x">>, Id("vch"), <<Use("x")>>), CRecvDef(<<"x">>, Id("vch"), <<>>),
+   CRecvDef(<<"x">>, Id("vch"), <<Use("x"), Define(<<"x">>, <<LitI(2)>>), Use("x")>>),      \* the clause body is the clause's block: no new variables CRecvDef(<<"x", "ok">>, Id("vch"), <<Use("x"), Use("ok")>>),
    CRecvDef(<<"x", "ok">>, Id("vch"), <<Use("x")>>), CRecv(Id("vch"), <<>>), CSend(Id("vch"), LitI(1), <<>>), CDflt(<<>>),
    CRecvAsg(<<Id("vi")>>, Id("vch"), <<>>), CRecvAsg(<<Id("vi"), Id("vb")>>, Id("vch"), <<>>), CRecvAsg(<<Id("vs")>>, Id("vch"), <<>>),
    CRecvDef(<<"x">>, Id("vch"), <<Define(<<"x">>, <<LitI(2)>>), Use("x")>>), CRecvDef(<<"y">>, Id("vch"), <<Use("x")>>),
@@ -324,7 +324,7 @@ SelAlphabet == <<
    CRecvDef(<<"x">>, Id("vch"), <<Var(<<"y">>, "string", <<Id("x")>>), Use("y")>>), CRecvDef(<<"_">>, Id("vch"), <<>>),
    CRecvDef(<<"x", "x">>, Id("vch"), <<Use("x")>>), CSend(Id("vch"), LitS, <<>>), CSend(Id("vi"), LitI(1), <<>>),
    CRecv(Id("vch"), <<Define(<<"x">>, <<LitI(1)>>), Use("x")>>), CRecv(Id("vch"), <<Define(<<"x">>, <<LitI(1)>>)>>) >>
-SelBodies == LET A == SelAlphabet
+SelBodies == LET A == IF Tier = 1 THEN SubSeq(SelAlphabet, 1, 13) ELSE SelAlphabet
                  sels == Map1(A, LAMBDA c : Select(<<c>>)) \o Pairs(A, A, LAMBDA c, d : Select(<<c, d>>)) IN
    Map1(sels, LAMBDA s : <<s>>)
    \o (IF Tier = 1 THEN <<>> ELSE Map1(sels, LAMBDA s : <<s, Use("x")>>) \o Map1(sels, LAMBDA s : <<Define(<<"x">>, <<LitS>>), s, Use("x")>>))
@@ -352,36 +352,38 @@ ScopeProgs == Map1(SelBodies, LAMBDA b : Prog("selscope", "", NoDesc, <<>>, b)) 
 
 (* ---------------------------------------------------------------- B5: calls (arity, variadic, spread) and multi-value forms *)
 CallFuncs == <<"f0", "f1", "f2", "f3", "fv", "fvs", "vfn", "vi">>
-ArgLeaves == IF Tier = 1 THEN <<LitI(1), LitS, Id("vsl"), Id("nil"), Call(Id("f2"), <<>>)>>
+ArgLeaves == IF Tier = 1 THEN <<LitI(1), LitS, Id("vsl"), Call(Id("f2"), <<>>)>>
              ELSE <<LitI(1), LitS, Id("vi"), Id("vs"), Id("vsl"), Id("nil"), Call(Id("f2"), <<>>), LitF>>
 ArgLists == << <<>> >> \o Map1(ArgLeaves, LAMBDA a : <<a>>) \o Pairs(ArgLeaves, ArgLeaves, LAMBDA a, b : <<a, b>>)
             \o (IF Tier = 1 THEN <<>> ELSE Flat(Map1(<<LitI(1), LitS, Id("vsl")>>, LAMBDA a : Pairs(ArgLeaves, ArgLeaves, LAMBDA b, c : <<a, b, c>>))))
 CallExprs == Pairs(CallFuncs, ArgLists, LAMBDA f, as : Call(Id(f), as))
              \o Pairs(CallFuncs, SelectSeq(ArgLists, LAMBDA as : Len(as) \in {1, 2}), LAMBDA f, as : CallS(Id(f), as))
-CallProgs == Map1(CallExprs, LAMBDA c : Prog("call", "stmt", NoDesc, <<>>, <<ExprS(c)>>))
-             \o (IF Tier = 1 THEN <<>> ELSE Map1(CallExprs, LAMBDA c : Prog("call", "blank", NoDesc, <<>>, <<Blank(c)>>)))
+CallDesc(c) == <<"call", c.f.name, IF c.spread THEN "..." ELSE "", "">>
+CallProgs == Map1(CallExprs, LAMBDA c : Prog("call", "stmt", CallDesc(c), <<>>, <<ExprS(c)>>))
+             \o (IF Tier = 1 THEN <<>> ELSE Map1(CallExprs, LAMBDA c : Prog("call", "blank", CallDesc(c), <<>>, <<Blank(c)>>)))
 MvRhs == << <<Call(Id("f2"), <<>>)>>, <<Index(Id("vm"), LitS)>>, <<RecvVch>>, <<AssertE(Id("va"), "int")>>, <<Id("vi")>>, <<Call(Id("f1"), <<LitI(1)>>)>>,
             <<LitI(1), LitS>>, <<LitI(1), Id("true")>>, <<Call(Id("f0"), <<>>)>>, <<LitI(1), LitS, LitI(2)>>, <<Call(Id("f2"), <<>>), LitI(1)>>,
             <<Index(Id("vsl"), LitI(0))>>, <<Index(Id("vs"), LitI(0))>>, <<Builtin("len", <<Id("vs")>>)>> >>
+RhsDesc(r) == <<"rhs", r[1].k, IF r[1].k = "index" THEN r[1].x.name ELSE IF r[1].k = "call" THEN r[1].f.name ELSE IF r[1].k = "builtin" THEN r[1].name ELSE "",
+                IF Len(r) = 1 THEN "1" ELSE IF Len(r) = 2 THEN "2" ELSE "3">>
 MvProgs == Flat(Map1(MvRhs, LAMBDA r : <<
-      Prog("multi", "define2", NoDesc, <<>>, <<Define(<<"a", "b">>, r), Use("a"), Use("b")>>),
-      Prog("multi", "asg:int,string", NoDesc, <<>>, <<Assign(<<Id("vi"), Id("vs")>>, r)>>),
-      Prog("multi", "asg:int,bool", NoDesc, <<>>, <<Assign(<<Id("vi"), Id("vb")>>, r)>>),
-      Prog("multi", "asg:_,_", NoDesc, <<>>, <<Assign(<<Id("_"), Id("_")>>, r)>>),
-      Prog("multi", "var2", NoDesc, <<>>, <<Var(<<"a", "b">>, "", r), Use("a"), Use("b")>>),
-      Prog("multi", "var2:int", NoDesc, <<>>, <<Var(<<"a", "b">>, "int", r), Use("a"), Use("b")>>),
-      Prog("multi", "ret:int,string", NoDesc, <<"int", "string">>, <<Return(r)>>),
-      Prog("multi", "ret:int,bool", NoDesc, <<"int", "bool">>, <<Return(r)>>),
-      Prog("multi", "define3", NoDesc, <<>>, <<Define(<<"a", "b", "c">>, r), Use("a"), Use("b"), Use("c")>>),
-      Prog("multi", "arg:f3", NoDesc, <<>>, <<ExprS(Call(Id("f3"), r))>>) >>))
+      Prog("multi", "define2", RhsDesc(r), <<>>, <<Define(<<"a", "b">>, r), Use("a"), Use("b")>>),
+      Prog("multi", "asg:int,string", RhsDesc(r), <<>>, <<Assign(<<Id("vi"), Id("vs")>>, r)>>),
+      Prog("multi", "asg:int,bool", RhsDesc(r), <<>>, <<Assign(<<Id("vi"), Id("vb")>>, r)>>),
+      Prog("multi", "asg:_,_", RhsDesc(r), <<>>, <<Assign(<<Id("_"), Id("_")>>, r)>>),
+      Prog("multi", "var2", RhsDesc(r), <<>>, <<Var(<<"a", "b">>, "", r), Use("a"), Use("b")>>),
+      Prog("multi", "var2:int", RhsDesc(r), <<>>, <<Var(<<"a", "b">>, "int", r), Use("a"), Use("b")>>),
+      Prog("multi", "ret:int,string", RhsDesc(r), <<"int", "string">>, <<Return(r)>>),
+      Prog("multi", "ret:int,bool", RhsDesc(r), <<"int", "bool">>, <<Return(r)>>),
+      Prog("multi", "define3", RhsDesc(r), <<>>, <<Define(<<"a", "b", "c">>, r), Use("a"), Use("b"), Use("c")>>),
+      Prog("multi", "arg:f3", RhsDesc(r), <<>>, <<ExprS(Call(Id("f3"), r))>>) >>))
 
 (* ---------------------------------------------------------------- the case set *)
 Progs == ExprProgs \o TermProgs \o DeclProgs \o ImportProgs \o TopProgs \o ScopeProgs \o CallProgs \o MvProgs
 Verd3(v) == IF v = "ok" THEN "accept" ELSE IF v = "undef" THEN "undef" ELSE "reject"
 \* Progs is bound ONCE by the LET (a top-level reference would re-evaluate the whole sequence each time)
-Cases == LET P == Progs
-             MS == SetToSeq({j \in 1..Len(P) : j % Parts = Part}) IN
-         [m \in 1..Len(MS) |-> LET j == MS[m] v == Verdict(P[j]) IN [id |-> j, verdict |-> Verd3(v), rule |-> v, prog |-> P[j]]]
+Cases == LET P == Progs IN
+         [j \in 1..Len(P) |-> LET v == Verdict(P[j]) IN [id |-> j, verdict |-> Verd3(v), rule |-> v, prog |-> P[j]]]
 
 (* ---------------------------------------------------------------- step 1 (GenInit/GenNext): export the cases *)
 VARIABLE n
@@ -389,7 +391,7 @@ GenInit == n = 0 /\ ndJsonSerialize("cases.ndjson", Cases)
 GenNext == UNCHANGED n
 
 (* ---------------------------------------------------------------- step 2 (Init/Next): model check, one state per
-   exported program.  n = 0 is the root, n = -b a block of BlockSize programs (so that TLC's workers share the
+   exported program (checks/c03.py splits cases.ndjson into shards, one TLC process each).  n = 0 is the root, n = -b a block of BlockSize programs (so that TLC's workers share the
    programs), n > 0 the n-th program of cases.ndjson. *)
 BlockSize == 64
 NBlocks == (Len(TypesCasesIn) + BlockSize - 1) \div BlockSize
@@ -433,9 +435,9 @@ ReprMonotone == n > 0 => LET p == prog IN
        LET e == p.body[1].es[1] IN
        Acc([p EXCEPT !.body = <<Var(<<"x">>, "uint8", <<e>>), Use("x")>>]) = "accept"
           => Acc([p EXCEPT !.body = <<Var(<<"x">>, "int", <<e>>), Use("x")>>]) = "accept"
-\* an accepted program stays accepted when an unrelated used declaration is appended; a rejected one stays rejected
+\* an accepted program stays accepted when an unrelated used declaration is prepended; a rejected one stays rejected
 Weakening == n > 0 => LET p == prog IN
-   p.grp \in {"exprctx", "decl"} /\ ~(p.grp = "exprctx" /\ CtxKind(p.ctx)[2] \in {"ret", "ret:none", "ret2"})
+   (p.grp = "decl" \/ (p.grp = "exprctx" /\ p.ctx \in {"varinfer", "if", "stmt", "lhs"}))
       => SameI([p EXCEPT !.body = <<Var(<<"zz">>, "int", <<>>), Use("zz")>> \o @])
 \* a terminating body keeps a function with results well-formed exactly when the body without results is (placement)
 TermPlacement == n > 0 => LET p == prog IN
